@@ -140,7 +140,7 @@ func c03(w *core.World, r *core.Report) {
 			continue
 		}
 		n := 0
-		for _, b := range f.Blocks {
+		for _, b := range core.Blocks(f) {
 			ret, ok := b.Instrs[len(b.Instrs)-1].(*ssa.Return)
 			if !ok || !guardedByHasErrorsOf(ret, valCalls[0], true) {
 				continue
@@ -160,7 +160,7 @@ func c03(w *core.World, r *core.Report) {
 		valCalls := core.CallsTo(low, "tree.RootEntry.Validate")
 		if len(valCalls) == 1 {
 			n := 0
-			for _, b := range low.Blocks {
+			for _, b := range core.Blocks(low) {
 				ret, ok := b.Instrs[len(b.Instrs)-1].(*ssa.Return)
 				if !ok || !guardedByHasErrorsOf(ret, valCalls[0], true) {
 					continue
@@ -250,7 +250,7 @@ func definitelyNilFunc(w *core.World, f *ssa.Function, depth int) bool {
 		return false
 	}
 	any := false
-	for _, b := range f.Blocks {
+	for _, b := range core.Blocks(f) {
 		ret, ok := b.Instrs[len(b.Instrs)-1].(*ssa.Return)
 		if !ok {
 			continue
@@ -291,7 +291,7 @@ func mayBeNonNil(w *core.World, v ssa.Value, depth int) bool {
 // the validation result vc.
 func responseCarriesErrors(f *ssa.Function, resp ssa.Value, vc ssa.CallInstruction) bool {
 	// find MapUpdate instructions whose value is a struct with field Errors fed by ErrorsString on a value ranging over vc
-	for _, b := range f.Blocks {
+	for _, b := range core.Blocks(f) {
 		for _, in := range b.Instrs {
 			mu, ok := in.(*ssa.MapUpdate)
 			if !ok {
@@ -486,7 +486,7 @@ func predict(w *core.World, r *core.Report, low *ssa.Function) {
 	// response fields assigned from these calls: result.Update / result.Delete stores happen before dryIf
 	for _, fld := range []string{"Update", "Delete"} {
 		found := false
-		for _, b := range low.Blocks {
+		for _, b := range core.Blocks(low) {
 			for _, in := range b.Instrs {
 				st, ok := in.(*ssa.Store)
 				if !ok {
